@@ -1,6 +1,9 @@
 //! Correspondence harness: runs scenario files against the real anysystem crate and prints observations.
+mod canon;
 mod common;
+mod mc;
 mod mcnet;
+mod script_proc;
 mod store;
 
 use common::*;
@@ -8,6 +11,7 @@ use common::*;
 fn run_scenario(sc: &Scenario) -> String {
     match sc.cls.as_str() {
         "STORE" => store::run(sc),
+        "MC" => mc::run(sc),
         c => format!("UNSUPPORTED {}\n", c),
     }
 }
